@@ -171,6 +171,10 @@ pub fn gen_args(r: &mut Rng, name: &str) -> Vec<V> {
             let n = 1025 + r.usize(1500);
             let big = V::Array((0..n).map(|_| match r.below(6) { 0 => s(*r.pick(&["95", "100", "9", "10", "1e3", "97.5"])), 1 => num(f64::NAN), 2 => V::Boolean(r.chance(1, 2)), _ => num((r.below(200) as f64) / 2.0) }).collect());
             match name { "count" | "contains" | "find" | "remove" => vec![big, if r.chance(1, 2) { num(97.0) } else { s("100") }], _ => vec![big] } }
+        // 33+ members that are ALL numbers (or all strings), with 0 next to -0 and the same NaN twice: equal / unequal by value, not by bit pattern
+        "unique" | "count" | "contains" | "find" if r.chance(1, 10) => { let n = 33 + r.usize(60); let strs = r.chance(1, 4);
+            let a = V::Array((0..n).map(|i| if strs { s(*r.pick(&["a", "b", "A", "", "0", "-0", "ab"])) } else { match r.below(8) { 0 => num(0.0), 1 => num(-0.0), 2 => num(f64::NAN), 3 => num(f64::from_bits(0x7ff8000000000001)), _ => num((i % 17) as f64) } }).collect());
+            match name { "unique" => vec![a], _ => vec![a, if strs { s("0") } else { num(*r.pick(&[0.0, -0.0, f64::NAN, 3.0])) }] } }
         "unique" if r.chance(3, 4) => { let n = 2 + r.below(7); vec![V::Array((0..n).map(|_| match r.below(9) { 0 => num(1.0), 1 => s("1"), 2 => V::Boolean(true), 3 => s("1.0"), 4 => num(0.0), 5 => s("0"), 6 => V::Boolean(false), 7 => s(""), _ => num(-0.0) }).collect())] }
         "length" | "reverse" | "unique" | "empty" | "bool" | "str" => vec![if r.chance(2, 3) { gen_hay(r) } else { gen_val(r, 2) }],
         "all" | "any" => { let n = r.below(5); let v: Vec<V> = (0..n).map(|_| match r.below(5) { 0 => V::Boolean(true), 1 => V::Boolean(false), 2 => num(1.0), 3 => s("true"), _ => gen_small_val(r) }).collect(); if r.chance(1, 2) { vec![V::Array(v)] } else { v } }
@@ -180,7 +184,7 @@ pub fn gen_args(r: &mut Rng, name: &str) -> Vec<V> {
         "compare" => { let a = gen_val(r, 2); let b = if r.chance(1, 4) { a.clone() } else { gen_val(r, 2) }; vec![a, b] }
         "float" | "int" => vec![match r.below(4) { 0 => V::Boolean(r.chance(1, 2)), 1 => num(gen_num(r)), _ => s(&if r.chance(1, 2) { gen_str(r) } else { format!("{}", gen_num(r)) }) }],
         "if_then" => { let n = 2 + r.below(2); let mut v = vec![if r.chance(5, 6) { V::Boolean(r.chance(1, 2)) } else { gen_small_val(r) }]; for _ in 1..=n - 1 { v.push(gen_small_val(r)); } v }
-        "chr" => vec![num(match r.below(4) { 0 => r.below(300) as f64, 1 => (r.below(1300) as f64) / 10.0 - 1.0, 2 => *r.pick(&[0.0, 127.0, 127.5, 128.0, -1.0, 65.0, 255.0, 126.999]), _ => gen_num(r) })],
+        "chr" => vec![num(match r.below(4) { 0 => r.below(300) as f64, 1 => (r.below(1300) as f64) / 10.0 - 1.0, 2 => *r.pick(&[0.0, 127.0, 127.5, 128.0, -1.0, 65.0, 255.0, 126.999, f64::NAN, f64::INFINITY, f64::NEG_INFINITY, -0.0, -0.5, 1e300]), _ => gen_num(r) })],
         "ord" => vec![s(&match r.below(4) { 0 => char::from_u32(r.below(300) as u32).unwrap_or('a').to_string(), 1 => r.pick(NEEDLES).to_string(), _ => char::from_u32(r.below(0x11000) as u32).unwrap_or('b').to_string() })],
         "lowercase" | "uppercase" | "trim" | "trim_left" | "trim_right" => vec![s(*r.pick(HAYS))],
         // pairs related by case mapping, over characters whose mapping changes the UTF-8 length or the character count
@@ -195,7 +199,7 @@ pub fn gen_args(r: &mut Rng, name: &str) -> Vec<V> {
         "abs" | "arc_tan" | "cos" | "exp" | "frac" | "ln" | "round" | "sin" | "sqrt" | "trunc" | "int_to_hex" | "even" | "odd" | "date" | "time" =>
             vec![num(if r.chance(1, 3) { (r.below(2000001) as f64) - 1000000.0 } else { gen_num(r) })],
         "pow" => { let base = |r: &mut Rng| if r.chance(1, 2) { gen_num(r) } else { (r.below(40_000_000) as f64) / (*r.pick(&[100.0, 1000.0, 7.0, 10000.0, 3.0])) - (if r.chance(1, 4) { 1000.0 } else { 0.0 }) };
-            if r.chance(1, 2) { vec![num(base(r))] } else { vec![num(base(r)), num(if r.chance(1, 3) { 2.0 } else { gen_num(r) })] } }
+            if r.chance(1, 2) { vec![num(base(r))] } else { vec![num(base(r)), num(if r.chance(1, 2) { *r.pick(&[2.0, 1.0 / 3.0, 0.5, 3.0, -1.0, 0.25, 1.5, -0.5, 1.0, 0.0, 2.0 / 3.0, 0.1]) } else { gen_num(r) })] } }
         "random" => if r.chance(1, 2) { vec![] } else { vec![num(gen_num(r))] },
         "choice" => { let n = r.below(4); (0..n).map(|_| gen_small_val(r)).collect() }
         "year" | "month" | "day" | "hour" | "minute" | "second" | "millisecond" | "day_of_week" | "is_leap_year" | "date_to_rfc2822" | "date_to_rfc3339" => vec![num(gen_date_num(r))],
@@ -206,6 +210,8 @@ pub fn gen_args(r: &mut Rng, name: &str) -> Vec<V> {
                 num(match r.below(6) { 0 => gen_num(r), 1 => *r.pick(&[60.0, -1.0, 59.9]), _ => r.below(60) as f64 }), num(match r.below(6) { 0 => gen_num(r), 1 => *r.pick(&[60.0, -1.0, 59.0]), _ => r.below(60) as f64 })];
             if r.chance(1, 2) { v.push(num(match r.below(6) { 0 => gen_num(r), 1 => *r.pick(&[1000.0, 999.0, 1999.0, 2000.0, -1.0]), _ => r.below(1000) as f64 })); } v }
         "date_to_string" | "time_to_string" => vec![s(*r.pick(&["%Y-%m-%d", "%H:%M:%S", "%Y-%m-%d %H:%M:%S%.3f", "%d.%m.%Y", "%%", "%Q", "%", "%9999Y", "plain", "", "%A %B", "%+", "%s", "%Y%", "%.3f"])), num(gen_date_num(r))],
+        // formats WITHOUT a year (or without a day): not enough to determine a date - an error, whatever today's date is
+        "string_to_date" if r.chance(1, 8) => { let (t, f) = *r.pick(&[("24.12.", "%d.%m."), ("12-24", "%m-%d"), ("359", "%j"), ("29.02.", "%d.%m."), ("2024", "%Y"), ("03", "%m"), ("Mon", "%a"), ("12-24 10", "%m-%d %H")]); vec![s(t), s(f)] }
         "string_to_date" => vec![s(&match r.below(5) { 0 => r.pick(&["2024-02-30", "2023-02-29", "2024-02-29", "0000-01-01", "9999-12-31", "2024-13-01", "2024-00-10", "2024-01-00", "2024-1-5", " 2024-01-05", "garbage", ""]).to_string(),
             _ => format!("{:04}-{:02}-{:02}", r.below(10000), r.below(14), r.below(33)) })],
         "string_to_time" => vec![s(&match r.below(5) { 0 => r.pick(&["23:59:60", "24:00:00", "00:60:00", "1:2:3", "12:00", "", "12:00:00.5"]).to_string(), _ => format!("{:02}:{:02}:{:02}", r.below(25), r.below(61), r.below(61)) })],
